@@ -741,6 +741,14 @@ class Interp(ExprMixin, StmtMixin):
             recv = ZV(as_v(recv), "set")
         return self._writeback(bm, ZV(L.set_add(recv.term, as_v(args[0])), recv.tag))
 
+    def m_update(self, recv, args, kwargs, bm, node):
+        """set.update(iterable) on a locally held set (membership view)."""
+        if isinstance(recv, PySeq) and recv.kind == "set":
+            recv = ZV(as_v(recv), "set")
+        if not (isinstance(recv, ZV) and (base_tag(recv.tag) or "").lower().startswith("set")):
+            raise Unsupported("update on %r (line %s)" % (recv, getattr(node, "lineno", "?")))
+        return self._writeback(bm, ZV(L.set_union(recv.term, self.seq_of(args[0]).term), recv.tag))
+
     def m_get(self, recv, args, kwargs, bm, node):
         if isinstance(recv, PyDict):
             recv = ZV(as_v(recv), "dict")
